@@ -1074,4 +1074,146 @@ def pyPrefix (ft : FnType) (owner : Option Nat) (cls : Nat) : List Nat :=
   | .classm => [cls]
   | .plain => owner.toList
 
+/-! ## extension: what happened in the same world BEFORE the observed convention; an overriding subclass
+
+  `XCase` = a `Case` plus (a) the HISTORY of the world the observed convention runs in and (b) whether the subclass of
+  the generated hierarchy OVERRIDES the decorated attribute and delegates to the inherited one through `super()`.
+  The first part is a (small) model of the two pieces of state the library could leave behind between two uses of a
+  decorated attribute - the context variable `_asyncio_mode` and entries in instance `__dict__`s that would shadow the
+  class attribute (the decorators are non-data descriptors) - with one step per event that mirrors what the code
+  does to them.  The second part is NOT a model of `super()`: it is a direct expectation on the observations (see
+  `ovrLog`). -/
+
+/-- events in the world of the observed convention, before it (harness: `World.event`) -/
+inductive Ev where
+  | use          -- the attribute is fetched through the observed access path and called (sync, `.asynq().value()`,
+                 -- `async_call`) with THIRD argument objects (neither the observed nor the second call's)
+  | useThread    -- the same, in another thread
+  | helpers      -- the five classification / conversion helpers are applied to the attribute fetched through every path
+  | copy         -- every instance is replaced by `copy.copy` of itself (the originals stay alive under other tokens)
+  | deepcopy     -- the same with `copy.deepcopy`
+  | aioOk        -- `await helper.asyncio()` of a returning @asynq() function, awaited DIRECTLY in the coroutine
+                 -- (same asyncio task, same context) in which the observed convention then runs
+  | aioFail      -- the same with a helper whose body raises (the exception is caught by the caller)
+  | aioSelf      -- `await b.asyncio(...)` of the attribute under test itself (third argument objects; whatever it raises
+                 -- - the case's exception, "BatchItem is not supported", a missing attribute - is caught)
+  | gc           -- the results of earlier look-ups are dropped and `gc.collect()` runs
+  | dbg          -- the debug / profiling options of asynq.debug are switched on from here on
+  | scoped       -- from here on everything runs inside an override of an AsyncScopedValue
+  | mocked       -- the class attribute was patched with asynq.mock.patch.object and restored
+  | bcopy        -- from here on the callable that is used is `copy.copy` of what attribute access returned (a copied
+                 -- binder / bound method; a decorator object cannot be copied and is used as it is)
+  deriving Repr, DecidableEq, Inhabited
+
+/-- the state a use of a decorated attribute could leave behind for the next one -/
+structure HState where
+  mode : Bool               -- `_asyncio_mode.get()` in the caller's context (asynq_to_async.py:23-29)
+  shadowed : List Nat       -- instances whose `__dict__` holds an entry named like the decorated attribute
+  deriving Repr, DecidableEq, Inhabited
+
+def HState.init : HState := ⟨false, []⟩
+
+def HState.clean (s : HState) : Bool := !s.mode && s.shadowed.isEmpty
+
+/-- AsyncioMode.__enter__ (asynq_to_async.py:83-85): `self._token = _asyncio_mode.set(True)`; the token remembers the
+    old value -/
+def aioEnter (s : HState) : HState × Bool := ({ s with mode := true }, s.mode)
+
+/-- AsyncioMode.__exit__ (asynq_to_async.py:87-90): `_asyncio_mode.reset(self._token)` -/
+def aioExit (s : HState) (token : Bool) : HState := { s with mode := token }
+
+/-- `await fn.asyncio(...)` (decorators.py convert_asynq_to_async: `with AsyncioMode(): <run the body>`): a `with`
+    statement calls `__exit__` on EVERY way of leaving the block, so whether the body fails does not matter -/
+def aioCall (s : HState) (_fails : Bool) : HState :=
+  let p := aioEnter s
+  aioExit p.1 p.2
+
+/-- what `aioCall` would be if the reset were skipped when the body fails (a generator-based context manager without
+    try/finally): only used by the witness `C09_aio_exit_needed` -/
+def aioCallLeaky (s : HState) (fails : Bool) : HState :=
+  let p := aioEnter s
+  if fails then p.1 else aioExit p.1 p.2
+
+/-- after `copy`, the copies carry the tokens of the instances; the originals live on under `origTok` -/
+def origTok (i : Nat) : Nat := i + 50
+
+/-- one event.  Attribute access (`DecoratorBase.__get__`, the pair override decorators.py:263-280), the call paths
+    and the helpers store nothing in the instance and leave the context variable alone; `copy.copy` / `deepcopy`
+    carry an instance's `__dict__` over to the copy; `.asyncio()` sets and resets the mode. -/
+def HState.step (raises : Bool) (s : HState) : Ev → HState
+  | .use | .useThread | .helpers => s
+  | .copy | .deepcopy => { s with shadowed := s.shadowed ++ s.shadowed.map origTok }
+  | .aioOk => aioCall s false
+  | .aioFail => aioCall s true
+  | .aioSelf => aioCall s raises
+  | .gc | .dbg | .scoped | .mocked | .bcopy => s      -- no component of the state they could touch
+
+def runHistFrom (raises : Bool) (s : HState) (h : List Ev) : HState := h.foldl (HState.step raises) s
+
+def runHist (raises : Bool) (h : List Ev) : HState := runHistFrom raises HState.init h
+
+structure XCase where
+  base : Case
+  hist : List Ev := []
+  ovr : Bool := false
+  deriving Repr, DecidableEq, Inhabited
+
+/-- no observation at all: what the model says when the state is not clean (in asyncio mode the conventions are C15's
+    subject; a shadowed attribute is not a decorated attribute any more).  Unreachable: `C09_history_clean`. -/
+def Report.undefined : Report := ⟨[], ⟨false, false, false, .absent, .absent⟩, 0⟩
+
+/-- MODEL with history: run the events, then the case -/
+def modelReportH (x : XCase) : Report :=
+  if (runHist x.base.raises x.hist).clean then modelReport x.base else Report.undefined
+
+/-! ### an overriding subclass (direct expectation; no theorem speaks about `super()`)
+
+  Harness: `Sub` defines its OWN attribute of the same name, decorated the same way; its bodies (identities 5 = async
+  body, 6 = sync_fn) have the same parameter list, log their bound parameters and delegate to the inherited attribute
+  `super(Sub, self).target` (`super(Sub, cls)` for a classmethod) with the same arguments: the async body by
+  `yield super().target.asynq(...)` (a pure kind: `yield super().target(...)`; a proxied body returns that future),
+  sync_fn by the plain call.  Expectation: wherever the reference table has an entry of an own body (1 or 2), the
+  entry of the overriding body (5 or 6) with the SAME bound parameters comes just before it; outcomes, flags, helpers
+  and the bound receiver are unchanged.  The conventions with two calls IN FLIGHT at once (`twin`, `sibling`,
+  `siblingCall`) are not run (the interleaving of four bodies is scheduling, C01-C08). -/
+
+def ovrLog : List Entry → List Entry
+  | [] => []
+  | e :: es =>
+    if e.body == 1 || e.body == 2 then { e with body := e.body + 4, got := true } :: e :: ovrLog es
+    else e :: ovrLog es
+
+def Cv.inFlight : Cv → Bool
+  | .twin | .sibling | .siblingCall => true
+  | _ => false
+
+def ovrObs (o : Obs) : Obs :=
+  if o.cv.inFlight then ⟨o.cv, [], .raised .skipped, false⟩ else { o with log := ovrLog o.log }
+
+def Report.ovr (r : Report) : Report := { r with obs := r.obs.map ovrObs }
+
+/-- where the override family is defined: the attribute is fetched through the subclass or its instance, the function
+    has a receiver (instance method; classmethod unless the second call goes through the base class), the body is a
+    generator function -/
+def XCase.ovrOk (x : XCase) : Bool :=
+  !x.ovr ||
+    ((x.base.cell.acc == .subInst || x.base.cell.acc == .subCls) &&
+     (x.base.cell.ft == .plain || (x.base.cell.ft == .classm && x.base.rel == .args)) &&
+     x.base.cell.bk != .plain)
+
+def modelReportX (x : XCase) : Report := if x.ovr then (modelReportH x).ovr else modelReportH x
+
+def refReportX (x : XCase) : Report := if x.ovr then (refReport x.base).ovr else refReport x.base
+
+/-- the observer the check evaluates: `spec` of the underlying case when there is no override (`C09_ext_conservative`),
+    whatever the history; the transformed reference report with one -/
+def specX (x : XCase) (r : Report) : Bool :=
+  supported x.base.cell.kind x.base.cell.ft x.base.cell.acc && x.ovrOk && (reportClause (refReportX x) r).isNone
+
+def specClauseX (x : XCase) (r : Report) : String :=
+  if specX x r then "ok"
+  else if !supported x.base.cell.kind x.base.cell.ft x.base.cell.acc then "unsupported-cell"
+  else if !x.ovrOk then "unsupported-override"
+  else (reportClause (refReportX x) r).getD "unknown"
+
 end AsynqModel.Decorators
